@@ -229,6 +229,12 @@ class Gen:
             if self.rng.random() < 0.5:
                 cfg["fs"] = self.cfg["fs"]
         self.cfg = cfg
+        if self.rng.random() < 0.15:
+            # checkOptions: a rejected configuration neither opens nor touches nor locks the directory
+            bad = dict(cfg)
+            bad.update(self.rng.choice([{"fs": 0}, {"sync": 2, "bps": 0}, {"bps": (16 << 20) + 1}, {"sync": 1, "bps": 1 << 30}]))
+            self.emit(open_line(self.d, bad))
+            self.emit("files " + self.d)
         self.emit(open_line(self.d, cfg))
         self.emit("dump")
         self.emit("stat")
@@ -317,6 +323,12 @@ class RefOracle:
             self.bad(i, "%s -> %s" % (op, out))
             return
         if o == "open":
+            fs, sy, bps = int(f[2]), int(f[3]), int(f[4])
+            if fs <= 0 or bps > (16 << 20) or (sy == 2 and bps == 0):
+                if out != "err:options":
+                    self.bad(i, "open with options that checkOptions rejects -> " + out)
+                self.features.add("open-rejected-options")
+                return
             if out != "ok":
                 self.bad(i, "open failed: " + out)
             else:
